@@ -13,7 +13,7 @@ func init() { register("C06", "other", checkC06) }
 
 func checkC06(w *World, r *Result) {
 	r.Explanation = "Decides structural necessary conditions on generator/dart: CONS both struct loops (class declaration and JSON routines) are json consumers; AGR-C06a the two loops have the same leading filter and derive the Dart field identifier the same way, so constructor parameters and fromJson arguments align; AGR-C02b union dispatch uses the members' local Go names on both the decoding and the encoding side; REC-SHAPE/EXH-b typeName and jsonID never follow a child buffer.generate skips and accept the same kinds; AGR-C06p every jsonFor* helper is only called from the code* function of the same node; FLW-C06b the file name returned by every buffer.generate(child) call inside a code* function flows into the imports that function returns, and the import emission skips exactly the file itself; AGR-C06c buffer.generate returns, on every path, the file computed for the node itself (Linker.GetOutput of its own type, the parent's only for anonymous maps and arrays), and Linker.GetOutput/OutputFiles read the same table; AGR-C10b/PTH-C10a/AGR-C10s the iota flag that licenses the positional conversion is decided on exactly the exported constants, after the integer, non-negative, gap and duplicate tests and the sort by value (rules shared with C10); AGR-C06i enum tables list exactly the exported constants and `implements` lists exactly the exported unions of Implements; AGR-C06e the index-based enum mapping is used exactly when IsIota; DECL-ID declaration IDs cover what their content reads; GEN-ID every name derived from a go/types Named also covers its type arguments, so two instantiations of one generic type are two classes; TPL-4 bracket balance of the constant templates. Does not decide: Dart syntax beyond balance, identity of member<->value conversion as a value-level fact."
-	r.Rules = []string{"CONS", "FLW-C09a", "AGR-C09b", "AGR-C06a", "AGR-C02b", "REC-SHAPE", "EXH-b", "AGR-C06p", "FLW-C06b", "AGR-C06c", "AGR-C10b", "PTH-C10a", "AGR-C10s", "SORT-PAR", "AGR-C06i", "AGR-C11i", "AGR-C06e", "DECL-ID", "GEN-ID", "CONST-EXACT", "UTF8-SLICE", "TPL-4", "ALIAS-APPEND", "PRINTF", "CACHE-DROP", "MUT-AN", "POS-ORDER"}
+	r.Rules = []string{"CONS", "FLW-C09a", "AGR-C09b", "AGR-C06a", "AGR-C02b", "REC-SHAPE", "EXH-b", "AGR-C06p", "FLW-C06b", "AGR-C06c", "AGR-C06r", "AGR-C10b", "PTH-C10a", "AGR-C10s", "SORT-PAR", "AGR-C06i", "AGR-C11i", "AGR-C06e", "DECL-ID", "GEN-ID", "CONST-EXACT", "UTF8-SLICE", "TPL-4", "ALIAS-APPEND", "PRINTF", "CACHE-DROP", "MUT-AN", "POS-ORDER"}
 	posOrderRule(w, r, func(rel string) bool { return rel == "analysis" || rel == "generator/dart" })
 	mutAnRule(w, r, func(rel string) bool { return rel == "generator/dart" })
 	cacheDropRule(w, r, func(rel string) bool { return rel == "generator/dart" })
@@ -37,6 +37,7 @@ func checkC06(w *World, r *Result) {
 	checkDartHelperPairs(w, r)
 	checkDartImports(w, r)
 	checkDartFileAssignment(w, r)
+	checkLinkerRootTest(w, r)
 	subE := &Result{}
 	checkEnumConsumers(w, subE)
 	for _, o := range subE.Obs {
@@ -480,4 +481,43 @@ func checkDartEnumAndImplements(w *World, r *Result) {
 		return true
 	})
 	r.cond(iota, "AGR-C06e", ce.Name, "index-based conversion exactly when IsIota, lookup table otherwise", fnPos(w, ce), "IsIota: values[i]/index; otherwise: _values table with indexOf", "the positional conversion is not restricted to iota-like enums (or the table branch is missing)")
+}
+
+// checkLinkerRootTest (AGR-C06r): whether a package lies inside the source root is decided on its import path,
+// where `/` separates the elements: after the separators have been flattened to `_` (the spelling of the output
+// file names) `root_ext/model` and `root/ext/model` are the same string, so a package outside the root is filed
+// as an inside one and same-named types of the two packages end up in one file.
+func checkLinkerRootTest(w *World, r *Result) {
+	fi := w.MustFunc("analysis.NewLinker")
+	info := fi.Pkg.TypesInfo
+	n := 0
+	ast.Inspect(fi.Decl.Body, func(x ast.Node) bool {
+		call, ok := x.(*ast.CallExpr)
+		if !ok || fullName(calleeOf(info, call)) != "strings.HasPrefix" || len(call.Args) != 2 {
+			return true
+		}
+		n++
+		// the tested value: a (*types.Package).Path() call, or a local all of whose definitions are one
+		isPath := func(e ast.Expr) bool {
+			c, ok := ast.Unparen(e).(*ast.CallExpr)
+			return ok && fullName(calleeOf(info, c)) == "(*go/types.Package).Path"
+		}
+		good := isPath(call.Args[0])
+		if id := identOf(call.Args[0]); id != nil && !good {
+			defs := defsIn(info, fi.Decl, objOf(info, id))
+			good = len(defs) > 0
+			for _, d := range defs {
+				if d.Pos() < call.Pos() && !isPath(d) {
+					good = false
+				}
+			}
+		}
+		r.cond(good, "AGR-C06r", fi.Name, "inside-the-root test on "+es(call.Args[0]), w.Pos(call.Pos()),
+			"the tested value is the import path of the type's package",
+			"the inside-the-root test is applied to `"+es(call.Args[0])+"`, which is not the import path itself (the separators were already rewritten): a package whose path merely continues the root's name with the replacement character is taken for a sub-package of the root and shares its output file")
+		return true
+	})
+	if n == 0 {
+		Undecided("AGR-C06r: NewLinker has no prefix test")
+	}
 }
